@@ -99,10 +99,13 @@ structure Laws (I : Interp α) (WT : Tensor α → Prop) : Prop where
   /-- definition of ONNX `Swish` (alpha = 1) on scalars: `x * Sigmoid(x)`, either operand order -/
   swish : ∀ v, I.fn "Mul" "" [v, I.fn "Sigmoid" "" [v]] = I.fn "Swish" "" [v]
   swish' : ∀ v, I.fn "Mul" "" [I.fn "Sigmoid" "" [v], v] = I.fn "Swish" "" [v]
-  /-- Reshape facts (ONNX semantics, assumed): a reshape of a reshape is the outer reshape; a
-      reshape keeps the number of elements; a reshape that does not change rank and extents is the identity; reshapes commute with unary
-      pointwise operators and casts. -/
-  reshape_reshape : ∀ (x s1 s2 : Tensor α), I.reshape (I.reshape x s1) s2 = I.reshape x s2
+  /-- Reshape facts (ONNX semantics, assumed): a reshape keeps the number of elements and their
+      row-major order, so one reshape — or two in a row — that restore rank and extents are the
+      identity; reshapes commute with unary pointwise operators and casts. (`Reshape(Reshape(x,s₁),s₂)
+      = Reshape(x,s₂)` is NOT assumed: it is false when `s₂` has a zero entry and `allowzero = 0`.) -/
+  reshape_same2 : ∀ (x s1 s2 : Tensor α), (I.reshape (I.reshape x s1) s2).rank = x.rank →
+    (∀ k, k < x.rank → (I.reshape (I.reshape x s1) s2).dim k = x.dim k) →
+    I.reshape (I.reshape x s1) s2 = x
   reshape_numel : ∀ (x s : Tensor α), numel (I.reshape x s) = numel x
   reshape_same : ∀ (x s : Tensor α), (I.reshape x s).rank = x.rank →
     (∀ k, k < x.rank → (I.reshape x s).dim k = x.dim k) → I.reshape x s = x
